@@ -34,12 +34,36 @@ def Disj (P : Nat) (a b : Blk) : Prop := ∀ p, ¬ (inBlock P a.v p ∧ inBlock 
 theorem Disj.symm {P : Nat} {a b : Blk} (h : Disj P a b) : Disj P b a :=
   fun p hp => h p ⟨hp.2, hp.1⟩
 
+/-- the block `(base page, capacity)` a container owns, if any (an empty `Vec` owns none) -/
+def blkP (v : PVec) : List (Nat × Nat) := if v.cap = 0 then [] else [(v.base, v.cap)]
+
+/-- the blocks owned by a list of containers -/
+def ownedB (bl : List Blk) : List (Nat × Nat) := bl.flatMap fun b => blkP b.v
+
 structure GoodL (P : Nat) (k : Kernel) (bl : List Blk) : Prop where
   start : startPage ≤ k.brk
   fresh : ∀ p, k.brk ≤ p → k.perm p = .rw ∧ k.locked p = false
   ok : ∀ b ∈ bl, BlockOK P k b
   disj : bl.Pairwise (Disj P)
   outside : ∀ p, (∀ b ∈ bl, ¬ inBlock P b.v p) → k.perm p = .rw
+  /-- LEDGER (ghost logs `k.al` / `k.fr`): as multisets of `(base, size)`, allocated = freed + owned by the blocks -/
+  led : ∀ z, k.al.count z = k.fr.count z + (ownedB bl).count z
+  /-- the bases of the allocated blocks are strictly increasing and below the bump pointer -/
+  albase : (k.al.map Prod.fst).Pairwise (· < ·) ∧ ∀ b ∈ k.al.map Prod.fst, b < k.brk
+
+theorem ownedB_cons (b : Blk) (R : List Blk) : ownedB (b :: R) = blkP b.v ++ ownedB R := by
+  simp [ownedB]
+
+theorem ownedB_perm {l l' : List Blk} (h : l.Perm l') (z : Nat × Nat) :
+    (ownedB l).count z = (ownedB l').count z := by
+  induction h with
+  | nil => rfl
+  | cons x _ ih => simp only [ownedB_cons, List.count_append, ih]
+  | swap x y l => simp only [ownedB_cons, List.count_append]; omega
+  | trans _ _ ih1 ih2 => rw [ih1, ih2]
+
+theorem blkP_congr {v v' : PVec} (hb : v'.base = v.base) (hc : v'.cap = v.cap) : blkP v' = blkP v := by
+  unfold blkP; rw [hb, hc]
 
 /-- no page outside the live blocks is locked -/
 def TightL (P : Nat) (k : Kernel) (bl : List Blk) : Prop :=
@@ -52,6 +76,8 @@ theorem GoodL.perm {P : Nat} {k : Kernel} {l l' : List Blk} (h : l.Perm l') (g :
   ok := fun b hb => g.ok b (h.mem_iff.mpr hb)
   disj := (h.pairwise_iff (fun hab => Disj.symm hab)).mp g.disj
   outside := fun p hp => g.outside p (fun b hb => hp b (h.mem_iff.mp hb))
+  led := fun z => by rw [g.led z, ownedB_perm h z]
+  albase := g.albase
 
 theorem TightL.perm {P : Nat} {k : Kernel} {l l' : List Blk} (h : l.Perm l') (g : TightL P k l) :
     TightL P k l' :=
@@ -97,10 +123,15 @@ theorem BlockOK.congr {P : Nat} (hP : 0 < P) {k k' : Kernel} {b : Blk} (h : Bloc
 theorem good_own {P : Nat} (hP : 0 < P) {k k' : Kernel} {b b' : Blk} {R : List Blk}
     (g : GoodL P k (b :: R)) (hbrk : k'.brk = k.brk)
     (hfr : ∀ p, ¬ inBlock P b.v p → k'.perm p = k.perm p ∧ k'.locked p = k.locked p)
-    (hb : b'.v.base = b.v.base) (hc : b'.v.cap = b.v.cap) (hok : BlockOK P k' b') :
+    (hb : b'.v.base = b.v.base) (hc : b'.v.cap = b.v.cap) (hok : BlockOK P k' b')
+    (hal : k'.al = k.al := by simp) (hfl : k'.fr = k.fr := by simp) :
     GoodL P k' (b' :: R) := by
   have hd := List.pairwise_cons.mp g.disj
-  refine ⟨by rw [hbrk]; exact g.start, ?_, ?_, ?_, ?_⟩
+  refine ⟨by rw [hbrk]; exact g.start, ?_, ?_, ?_, ?_, ?_, ?_⟩
+  rotate_left 4
+  · intro z
+    rw [hal, hfl, ownedB_cons, blkP_congr hb hc, ← ownedB_cons]; exact g.led z
+  · rw [hal, hbrk]; exact g.albase
   · intro p hp
     have hn : ¬ inBlock P b.v p := by
       intro hi
@@ -152,7 +183,23 @@ theorem good_alloc {c : Cfg} (hP : 0 < c.P) {m : Mach} {R : List Blk} (g : GoodL
   have hold : ∀ p, p < m.k.brk → (alloc c m size).1.k.perm p = m.k.perm p := by
     intro p hp; rw [hperm]; grind
   have hst := g.start
-  refine ⟨by omega, ?_, ?_, ?_, ?_⟩
+  refine ⟨by omega, ?_, ?_, ?_, ?_, ?_, ?_⟩
+  rotate_left 4
+  · intro z
+    rw [alloc_al, alloc_fr, ownedB_cons, List.count_append, List.count_append, g.led z]
+    have : blkP v = [(m.k.brk, size)] := by
+      unfold blkP; rw [if_neg (by omega), hb, hc]
+    rw [this]; omega
+  · rw [alloc_al, List.map_append, hbrk]
+    refine ⟨List.pairwise_append.mpr ⟨g.albase.1, by simp, ?_⟩, ?_⟩
+    · intro a ha b hbm
+      simp only [List.map_cons, List.map_nil, List.mem_singleton] at hbm
+      rw [hbm]; exact g.albase.2 a ha
+    · intro b hbm
+      rcases List.mem_append.mp hbm with h1 | h1
+      · have := g.albase.2 b h1; omega
+      · simp only [List.map_cons, List.map_nil, List.mem_singleton] at h1
+        omega
   · intro p hp
     rw [hperm, alloc_locked]
     have := g.fresh p (by omega)
@@ -215,7 +262,15 @@ theorem good_dealloc {c : Cfg} (hP : 0 < c.P) {m : Mach} {b : Blk} {R : List Blk
     intro p hn; rw [hperm]
     have : ¬ (b.v.base ≤ p ∧ p < b.v.base + b.v.cap / c.P + 3) := fun h => hn ⟨hc, h.1, h.2⟩
     grind
-  refine ⟨by rw [dealloc_brk]; exact g.start, ?_, ?_, hd.2, ?_⟩
+  refine ⟨by rw [dealloc_brk]; exact g.start, ?_, ?_, hd.2, ?_, ?_, ?_⟩
+  rotate_left 3
+  · intro z
+    have := g.led z
+    rw [ownedB_cons, List.count_append] at this
+    have e : blkP b.v = [(b.v.base, b.v.cap)] := by unfold blkP; rw [if_neg (by omega)]
+    rw [e] at this
+    rw [dealloc_al, dealloc_fr, List.count_append]; omega
+  · rw [dealloc_al, dealloc_brk]; exact g.albase
   · intro p hp
     rw [dealloc_brk] at hp
     have := hb.hi hc
